@@ -7,6 +7,8 @@ import (
 	"sort"
 	"strings"
 	"testing"
+
+	"github.com/ChainSafe/gossamer/pkg/scale"
 )
 
 // c13GenesisRun drives the genesis balances builder (lib/genesis/helpers.go), the third file the
@@ -15,6 +17,31 @@ import (
 // balance as the caller still sees it afterwards.
 func c13GenesisRun(line string) string {
 	f := strings.Fields(line)
+	if len(f) == 2 && f[0] == "gsv" {
+		// generateStorageValue on a runtime-struct field of type *scale.Uint128 (staking.canceledPayout):
+		// the raw genesis storage bytes of the number, and its JSON form for comparison
+		n, ok := new(big.Int).SetString(f[1], 10)
+		if !ok {
+			return "bad-op"
+		}
+		u, err := scale.NewUint128(n)
+		if err != nil {
+			return "err"
+		}
+		holder := struct {
+			Other uint32
+			V     *scale.Uint128
+		}{7, u}
+		enc, err := generateStorageValue(&holder, 1)
+		if err != nil {
+			return "err"
+		}
+		js, err := u.MarshalJSON()
+		if err != nil {
+			return "err"
+		}
+		return vhHex(enc) + " json=" + string(js)
+	}
 	if len(f) != 3 || f[0] != "gbal" {
 		return "bad-op"
 	}
@@ -59,6 +86,9 @@ func c13GenesisGen(r *vhRng) string {
 		}
 	default:
 		copy(b, r.Bytes(nb))
+	}
+	if r.Chance(1, 3) {
+		return "gsv " + new(big.Int).SetBytes(b).String()
 	}
 	return "gbal " + vhHex(addr) + " " + new(big.Int).SetBytes(b).String()
 }
